@@ -55,7 +55,18 @@ func init() {
 func c07(r *Run) {
 	w := r.W
 	// what is charged is Fee(Units(tx)) and is what the result reports (the quantity MaxFee would have to bound)
-	defer r.importRules(c03, "C03.R2", "C03.R1")
+	defer r.importRules(c03, "C03.R2", "C03.R1", "C03.R4")
+	// builder and verifier pre-execute a transaction on the same kind of view (the one it then executes on): a
+	// transaction the sponsor can no longer pay is skipped by the builder and invalidates a block
+	defer r.importRules(c02, "C02.R4")
+	// R3: the fee charged in a block is Fee(Units(tx, rules of that block)): Units keeps no memo in the transaction
+	// (a memo has no key: the units of the first rule set seen would be charged under every later one)
+	r.rule("C07.R3", "K3", "Transaction.Units and the fee computation write no field of the transaction (no unkeyed memo of rule-dependent values)", 2)
+	for _, n := range []string{nmUnits, nmTxPreExecute} {
+		if f := r.fn(w, "C07.R3", n); f != nil {
+			r.forbidEffect(w, "C07.R3", short(n)+":no-memo-in-transaction", f, "store p0.* = *", "a rule-dependent value is stored in the transaction object and reused under whatever rules apply later")
+		}
+	}
 	r.rule("C07.R1", "K5/K1", "a comparison of the computed fee with Base.MaxFee, whose exceeding edge returns an error, dominates CanDeduct/Deduct", 1)
 	r.rule("C07.R2", "K10", "MaxFee is part of the signed body", 2)
 	pe := r.fn(w, "C07.R1", nmTxPreExecute)
